@@ -403,5 +403,5 @@ MANIFEST = {
             "byte-identically; plus a CLI chain (test->test, update->show).",
     "note": "The date sweep is complete for the tier's year range (thorough: 1000-9999); random patterns are limited "
             "to grammar G. Week 53 of WW/0W/UU/0U is a recorded finding (known_findings.json F1).",
-    "technique": "exhaustive enumeration (dates) + property-based testing (Hypothesis) with round-trip and reference-recogniser oracles",
+    "technique": "exhaustive enumeration (dates) + property-based testing (Hypothesis) with round-trip and reference-recogniser oracles; plus coverage-guided fuzzing (atheris/libFuzzer) of the same byte decoder and oracle",
 }
